@@ -18,12 +18,13 @@ import (
 // are batched (lock-step .. fully pipelined), how the byte stream is chunked,
 // how the clock advances and how/where the stream ends.
 type connRun struct {
-	S   *sim.Sim
-	N   *sim.Net
-	P   *sim.Pipe
-	Srv *redis.Server
-	D   *wl.Double
-	O   *Outcome
+	stalled bool // the client has stopped reading
+	S       *sim.Sim
+	N       *sim.Net
+	P       *sim.Pipe
+	Srv     *redis.Server
+	D       *wl.Double
+	O       *Outcome
 
 	Reqs   []*wl.Req
 	ends   []int // cumulative end offset of request i in the client stream
@@ -116,7 +117,12 @@ func (c *connRun) onCall(call *wl.Call) {
 // the replies that could not be written because the client was gone (one Write per reply).
 func (c *connRun) serving() int {
 	c.collect()
-	vals, _, _, _ := c.decodeReplies()
+	written := c.reply
+	if c.stalled {
+		// the client does not read: count what the server has written so far
+		written = append(append([]byte{}, c.reply...), c.P.Peek(1)...)
+	}
+	vals, _, _, _ := resp.DecodeAll(written)
 	return len(vals) + c.P.Ends[1].FailedWrites
 }
 
@@ -174,6 +180,9 @@ func (c *connRun) runnable(t *sim.Task) bool {
 
 // collect moves the server's output to c.reply.
 func (c *connRun) collect() {
+	if c.stalled {
+		return // the client does not read: what the server wrote stays in the transport (behind a finite window)
+	}
 	c.reply = append(c.reply, c.P.Take(1)...)
 }
 
@@ -246,6 +255,10 @@ func (c *connRun) pump(atQuiescence func()) {
 			if c.P.FinPending(0) {
 				c.P.DeliverFin(0)
 				c.S.Logf("sched", "deliver FIN")
+				continue
+			}
+			// nothing to deliver: if the server waits for a deadline, the simulated clock jumps to it
+			if c.srvTask() != nil && c.S.AdvanceToNextWake() {
 				continue
 			}
 			return
